@@ -97,6 +97,10 @@ def well_formed(self):
     return True
 
 
+def _well_formed_trampoline(self):
+    return well_formed(self)
+
+
 def broken_error(self):
     return InvariantBroken("cuckoo table invariant broken: " + "; ".join(LAST.get("problems", ["?"])[:4]))
 
@@ -115,7 +119,7 @@ def install():
     import probables.cuckoo.countingcuckoo as c2
 
     for cls in (c1.CuckooFilter, c2.CountingCuckooFilter):
-        dec = icontract.invariant(well_formed, error=broken_error)(cls)
+        dec = icontract.invariant(_well_formed_trampoline, error=broken_error)(cls)
         assert dec is cls
     _installed = True
     return True
